@@ -388,3 +388,7 @@ def run(facts, rep, tier):
     from . import c04
     from .c06 import _MultiOnly
     c04.rule_r3(facts, _MultiOnly(rep, ("nodes_map", "cache:")), "C03-R4")
+    rep.rule("C03-R5", "Writer event pairing: in every block of the cmark event writer the Start(Tag::V) / End(TagEnd::W) constructions are balanced in source order with V == W at every "
+             "close - an unbalanced stream is answered with Err(UnexpectedEvent), which MarkdownWriter::write unwraps (formatting a note with that construct in a table panics).")
+    from . import events
+    events.rule_event_pairing(facts, rep, "C03-R5")
